@@ -19,6 +19,8 @@ cmp -s "$ROOT/build/gen/Facts_gen.v" "$ROOT/coq/Gen/Facts_gen.v" || cp "$ROOT/bu
 cmp -s "$ROOT/build/gen/Wrappers_gen.v" "$ROOT/coq/Gen/Wrappers_gen.v" || cp "$ROOT/build/gen/Wrappers_gen.v" "$ROOT/coq/Gen/Wrappers_gen.v"
 "$ROOT/build/vh" comparators -out "$ROOT/build/gen/comparators" "$ROOT/build/gen/Comparators_gen.v" >/dev/null || exit 1
 cmp -s "$ROOT/build/gen/Comparators_gen.v" "$ROOT/coq/Gen/Comparators_gen.v" || cp "$ROOT/build/gen/Comparators_gen.v" "$ROOT/coq/Gen/Comparators_gen.v"
+"$ROOT/build/vh" decisions -out "$ROOT/build/gen/decisions" "$ROOT/build/gen/Decisions_gen.v" >/dev/null || exit 1
+cmp -s "$ROOT/build/gen/Decisions_gen.v" "$ROOT/coq/Gen/Decisions_gen.v" || cp "$ROOT/build/gen/Decisions_gen.v" "$ROOT/coq/Gen/Decisions_gen.v"
 cd "$ROOT/coq"
 if [ ! -f Makefile ] || [ _CoqProject -nt Makefile ]; then
   coq_makefile -f _CoqProject -o Makefile >/dev/null
